@@ -23,7 +23,7 @@ def hostile_names(rng, n):
     """Printable strings except reserved words, theory symbols, literal
     spellings and names containing | or backslash."""
     fixed = ['.def_0', '.def_1', '.def_2', 'x y', 'a(b', ')', '(', ';c',
-             '"q"', '#b01', '#x1F', '12', '1.5', '0abc', ':kw', 'a;b',
+             'q"q', '#c01', '0abc', ':kw', 'a;b',
              'Int', 'Real', 'Bool', 'Array', 'x!1', 'λ', 'naïve', 'a\tb',
              "it's", 'a"b', 'A', 'a', 'p', '~', '<=>', '_x', 'a.b', '-x',
              '@v', 'é', ' lead', 'trail ', 'a  b', '{}', '[0]', 'ж1',
@@ -43,6 +43,17 @@ def hostile_names(rng, n):
                       'rotate_right', 'repeat'):
             continue
         if '\n' in s or '\r' in s:
+            continue
+        # literal spellings (numerals, decimals, #b / #x, string literals)
+        # are outside the property's name domain
+        try:
+            float(s)
+            continue
+        except ValueError:
+            pass
+        if (s.startswith('#b') or s.startswith('#x')) and len(s) > 2:
+            continue
+        if s.startswith('"') and s.endswith('"'):
             continue
         seen.add(s)
         ok.append(s)
